@@ -87,6 +87,9 @@ func genConf(r *rand.Rand, portBase int) ConfSpec {
 				id++
 				svc.Keys = append(svc.Keys, KeySpec{ID: fmt.Sprintf("u%d", id), Cipher: key.Cipher, Secret: key.Secret})
 			}
+			if r.Intn(6) == 0 { // the SAME id once more with another secret or cipher (one user, two keys): both work, both are this id
+				svc.Keys = append(svc.Keys, KeySpec{ID: key.ID, Cipher: pick(r, cipherNames), Secret: randSecret(r)})
+			}
 			if r.Intn(4) == 0 { // the same secret under ANOTHER cipher: a different key, must work as well
 				id++
 				other := pick(r, cipherNames)
@@ -466,7 +469,7 @@ func init() {
 	vk.Register(&vk.Spec{
 		ID:          "C09",
 		Level:       "exploration",
-		Rule:        "PRNG configurations for the real binary (0..4 services with 1..3 tcp/udp listeners on distinct IPv4/IPv6/wildcard addresses and 1..5 keys, duplicate cipher+secret inside a service under another id, the same material in other services under other ids, 0..2 legacy ports incl. one key on two ports, mixtures of both formats); every (listener, key) pair of the configuration is probed (sequentially from one client host with a history pass, then 12 clients concurrently per TCP listener and across all TCP listeners at once; replay history 0/1000/20000); class = (listener type, owner kind, owned, cipher, duplicate-in-owner)",
+		Rule:        "PRNG configurations for the real binary (0..4 services with 1..3 tcp/udp listeners on distinct IPv4/IPv6/wildcard addresses and 1..5 keys, duplicate cipher+secret inside a service under another id, one id carried by two different keys, the same material in other services under other ids, 0..2 legacy ports incl. one key on two ports, mixtures of both formats); every (listener, key) pair of the configuration is probed (sequentially from one client host with a history pass, then 12 clients concurrently per TCP listener and across all TCP listeners at once; replay history 0/1000/20000); class = (listener type, owner kind, owned, cipher, duplicate-in-owner)",
 		Assumptions: []string{"attribution is read from /metrics deltas of the running process (tcp_connections_closed, data_bytes, udp_nat_entries_added)", "negative TCP pairs send a FIN so that the 59 s probe timeout does not have to elapse"},
 		Batches:     func(t string) int { return map[string]int{"quick": 4, "thorough": 16}[t] },
 		Parallel:    func(t string) int { return 4 },
